@@ -7,6 +7,12 @@ from the template (harness/gen_c01.py: no genshi involved), each payload verbati
 
 Correspondence: the same case goes through the Lean model (gdrv): model output text == real output text,
 and the model's reader applied to the real output == the independent parser's tokens.
+
+Wave 4 (package rawtext): script/style elements hold literals with `<` / `&` and substitution sites.  Under xml / xhtml they
+are ordinary elements; under html their content is raw text: the skeleton carries the strings as emitted (the documentation
+the property cites: no escaping takes place there), a case whose raw content holds `</` is the property's own exception and
+is not judged (gen_c01.raw_etago).  Two more correspondence streams tie `coalesceR` / `expectedListR` / `rawOkGo`
+(structure_preserved_rawtext_partial, reread_rawtext_nostrip) to the generator's skeleton and to html.parser on real streams.
 """
 import json, random
 from harness import proto
